@@ -115,7 +115,11 @@ pub fn spell(x: &Big, sp: Spelling, salt: u64) -> Option<String> {
             if !small53 {
                 return None;
             }
-            format!("{dec}0e-1")
+            if x.is_zero() {
+                "0e-1".to_string()
+            } else {
+                format!("{dec}0e-1")
+            }
         }
         Spelling::DecString => format!("\"{dec}\""),
         Spelling::DecStringLeadingZeros => format!("\"{}{dec}\"", "0".repeat(1 + (salt % 3) as usize)),
